@@ -75,10 +75,13 @@ CHECKS["C13"] = dict(
     text=("Theorems: to_string of a chain is the function `descr` of its single-mode dictionary — first pattern at the top, "
           "second at every nested level, daughters sorted at each level; identical string for any order of daughters and "
           "sub-decays (dictionary-level equivalence and chain-level); plain patterns render by substitution. Unbounded in "
-          "shape. PARTIAL: character-level read-back injectivity is not a theorem; an independent bracket-matching reader "
-          "checks it on every implementation string of the run."),
+          "shape. INJECTIVITY (character level, default patterns): equal descriptor strings come only from chain dictionaries equal "
+          "up to the order of daughters at every level (names may contain balanced parentheses, no blanks, not starting with a "
+          "parenthesis; every decay has a daughter) — by a reader that recovers the top-level pieces; descriptor equality <=> tree "
+          "equivalence. PARTIAL: user-defined patterns are executed only (independent bracket-matching reader on every "
+          "implementation string of the run)."),
     design="DESIGN.md §5 C13",
-    technique="Coq proof (nested induction, sorted-permutation canonicity) + differential correspondence + read-back reader")
+    technique="Coq proof (nested induction, sorted-permutation canonicity, parenthesis-depth reader for injectivity) + differential correspondence + read-back reader")
 
 CHECKS["C16"] = dict(
     text=("Theorems over the model of print_decay_modes: rows are a permutation of the decay lines (each once), ordered by "
